@@ -258,6 +258,7 @@ func (tr *Tr) call(fr *Frame, site ssa.Instruction, c *ssa.CallCommon, res *ssa.
 	}
 	sf := c.StaticCallee()
 	if sf == nil {
+		tr.uncheckedCalleeEffects(fr, site, "function value", func(e string) bool { return tr.P.dynMayEffectV(c.Value, e) })
 		if !tr.callMayWrite(fr, c) {
 			tr.havocAllNoWrite(fr, "call through a function value at "+describe(tr.P.prog, site.Pos()))
 		} else {
@@ -280,6 +281,7 @@ func (tr *Tr) call(fr *Frame, site ssa.Instruction, c *ssa.CallCommon, res *ssa.
 		return
 	}
 	if tr.P.isRepoFunc(sf) {
+		tr.uncheckedCalleeEffects(fr, site, sf.Name(), func(e string) bool { return tr.P.mayEffect(sf, e) })
 		if !tr.P.mayEffect(sf, "devwrite") {
 			tr.havocAllNoWrite(fr, "repo callee without contract, too large to inline: "+funcDisplay(sf))
 			tr.setResult(fr, res, fresh("r_"+sf.Name()))
@@ -290,6 +292,7 @@ func (tr *Tr) call(fr *Frame, site ssa.Instruction, c *ssa.CallCommon, res *ssa.
 		return
 	}
 	// foreign function: arguments' regions may be written, nothing else
+	tr.uncheckedCalleeEffects(fr, site, sf.String(), func(e string) bool { return effectSource(sf, e) })
 	tr.foreignCall(fr, c, sf, args)
 	tr.setResult(fr, res, fresh("r_"+sf.Name()))
 }
@@ -720,6 +723,15 @@ func (tr *Tr) invoke(fr *Frame, site ssa.Instruction, c *ssa.CallCommon, rt type
 		tr.note("foreign interface method (receiver and arguments havocked): " + name)
 		return tr.freshVal(rt, "iv_"+name)
 	}
+	tr.uncheckedCalleeEffects(fr, site, "interface method "+name, func(e string) bool {
+		tr.P.mayEffect(nil, e)
+		for _, m := range tr.P.byMethod[name] {
+			if tr.P.mayEffect(m, e) {
+				return true
+			}
+		}
+		return false
+	})
 	if !tr.repoMethodMayWrite(name) {
 		tr.havocAllNoWrite(fr, "repo interface method without contract: "+types.TypeString(c.Value.Type(), nil)+"."+name)
 		return tr.freshVal(rt, "iv_"+name)
@@ -774,7 +786,43 @@ func (tr *Tr) effect(fr *Frame, site ssa.Instruction, eff string) {
 	}
 	for _, e := range top.contract.Effects {
 		if e == eff {
-			tr.obligeNamed("effect", eff, site.Pos(), tr.f.False(), "forbidden effect reachable: "+eff)
+			tr.obligeNamed("effect", eff, site.Pos(), tr.effectGoal(eff), "forbidden effect reachable: "+eff)
+		}
+	}
+}
+
+// effectGoal: false, or "not cond" when the effect is only forbidden for entry states satisfying cond.
+func (tr *Tr) effectGoal(eff string) *Term {
+	top := tr.frames[0]
+	w := top.contract.EffectWhen[eff]
+	if w == nil {
+		return tr.f.False()
+	}
+	env := tr.envFor(top, nil, tr.entry)
+	env.fr = nil
+	for k, v := range tr.topParams {
+		env.vars[k] = v
+	}
+	t, err := env.EvalBool(w.Expr)
+	if err != nil {
+		tr.specError(*w, err)
+		return tr.f.False()
+	}
+	return tr.f.Not(t)
+}
+
+// uncheckedCalleeEffects: a callee that is neither inlined nor called by contract must not be able to reach a forbidden source.
+func (tr *Tr) uncheckedCalleeEffects(fr *Frame, site ssa.Instruction, what string, may func(eff string) bool) {
+	top := tr.frames[0]
+	if top.contract == nil {
+		return
+	}
+	for _, e := range top.contract.Effects {
+		if e == "devwrite" {
+			continue
+		}
+		if may(e) {
+			tr.obligeNamed("effect", e+"@"+what, site.Pos(), tr.effectGoal(e), "callee "+what+" may reach a source of effect "+e)
 		}
 	}
 }
@@ -1015,7 +1063,7 @@ func (tr *Tr) callByContract(fr *Frame, site ssa.Instruction, fn *ssa.Function, 
 		tr.assume(f.Implies(reach, t), "postcondition of "+funcDisplay(fn)+": "+e.Src)
 	}
 	// effects declared by the callee propagate to the caller
-	tr.calleeEffects(fr, site, fn, ct)
+	tr.calleeEffects(fr, site, fn, ct, tr.calleeEnv(fn, ct, args, pre, pre))
 	if ct.Trusted {
 		tr.trust("trusted contract of " + funcDisplay(fn))
 	}
@@ -1023,7 +1071,7 @@ func (tr *Tr) callByContract(fr *Frame, site ssa.Instruction, fn *ssa.Function, 
 	return res
 }
 
-func (tr *Tr) calleeEffects(fr *Frame, site ssa.Instruction, fn *ssa.Function, ct *Contract) {
+func (tr *Tr) calleeEffects(fr *Frame, site ssa.Instruction, fn *ssa.Function, ct *Contract, envPre *Env) {
 	top := tr.frames[0]
 	if top.contract == nil {
 		return
@@ -1039,8 +1087,19 @@ func (tr *Tr) calleeEffects(fr *Frame, site ssa.Instruction, fn *ssa.Function, c
 				declared = true
 			}
 		}
+		if w := ct.EffectWhen[e]; declared && w != nil {
+			// the callee promises the absence of e only under a condition on its entry state: that condition (or the
+			// caller's own licence for e) must hold here
+			c, err := envPre.EvalBool(w.Expr)
+			if err != nil {
+				tr.specError(*w, err)
+				continue
+			}
+			tr.obligeNamed("effect", e+"@"+fn.Name()+".when", site.Pos(), tr.f.Or(c, tr.effectGoal(e)), "callee "+funcDisplay(fn)+" avoids effect "+e+" only when: "+w.Src)
+			continue
+		}
 		if !declared && tr.P.mayEffect(fn, e) {
-			tr.obligeNamed("effect", e+"@"+fn.Name(), site.Pos(), tr.f.False(), "callee "+funcDisplay(fn)+" may reach a source of effect "+e+" and does not promise its absence")
+			tr.obligeNamed("effect", e+"@"+fn.Name(), site.Pos(), tr.effectGoal(e), "callee "+funcDisplay(fn)+" may reach a source of effect "+e+" and does not promise its absence")
 		}
 	}
 }
@@ -1212,7 +1271,7 @@ func (tr *Tr) callMayWrite(fr *Frame, c *ssa.CallCommon) bool {
 	}
 	sf := c.StaticCallee()
 	if sf == nil {
-		return tr.P.dynMayEffect(c.Value.Type(), "devwrite")
+		return tr.P.dynMayEffectV(c.Value, "devwrite")
 	}
 	return tr.P.mayEffect(sf, "devwrite")
 }
